@@ -666,11 +666,12 @@ def rotFromToCode2 [Div K] [LT K] [DecidableLT K] (sqrt : K → K) (tol2 : K) (u
   if u0.normSq < tol2 ∨ v0.normSq < tol2 then none else
   some (rotFromTo2 (V2.normalize sqrt u0) (V2.normalize sqrt v0))
 
-/-! ## `transform_system(principal_vec, principal_default, other_vecs)` without `matrix` (round 4)
+/-! ## `transform_system(principal_vec, principal_default, other_vecs)` without `matrix`
 
-The matrix that the constructors apply to the default frame: the identity if the given
-principal vector is `np.allclose` to a positive multiple of the default ("dilation only":
-the SNAP, `atol = 1e-8`, `rtol = 1e-5`), else `rotation_matrix_from_to(default, given)`.
+The matrix that the constructors apply to the default frame: the identity if the NORMALISED
+given principal vector is within `atol = 1e-8` (entry-wise, `rtol = 0`) of the normalised
+default ("dilation only": the SNAP, as coded since b998548), else
+`rotation_matrix_from_to(default, given)`.
 `none` = raises `ValueError` (exactly one of the two vectors is zero, or the given one is
 shorter than `1e-10` and not snapped); two zero vectors give the identity. -/
 
@@ -681,24 +682,44 @@ def absK [LT K] [DecidableLT K] (x : K) : K := if x < 0 then -x else x
 def closeTo [LT K] [DecidableLT K] (atol rtol a b : K) : Bool :=
   !decide (atol + rtol * absK b < absK (a - b))
 
+/-- the snap test of `transform_system` in 2-d:
+`np.allclose(p/‖p‖, dflt/‖dflt‖, rtol=0, atol=atol)` -/
+def tsSnaps2 [Div K] [LT K] [DecidableLT K] (sqrt : K → K) (atol : K) (dflt p : V2 K) : Bool :=
+  let ph := V2.normalize sqrt p
+  let dh := V2.normalize sqrt dflt
+  closeTo atol 0 ph.x dh.x && closeTo atol 0 ph.y dh.y
+
+/-- the snap test of `transform_system` in 3-d -/
+def tsSnaps3 [Div K] [LT K] [DecidableLT K] (sqrt : K → K) (atol : K) (dflt p : V3 K) : Bool :=
+  let ph := V3.normalize sqrt p
+  let dh := V3.normalize sqrt dflt
+  closeTo atol 0 ph.x dh.x && closeTo atol 0 ph.y dh.y && closeTo atol 0 ph.z dh.z
+
 /-- `transform_system` in 2-d: the matrix applied to `other_vecs`. -/
-def tsMatrix2 [Div K] [LT K] [DecidableLT K] [DecidableEq K] (sqrt : K → K) (tol2 atol rtol : K)
+def tsMatrix2 [Div K] [LT K] [DecidableLT K] [DecidableEq K] (sqrt : K → K) (tol2 atol : K)
+    (dflt p : V2 K) : Option (M2 K) :=
+  if p.normSq = 0 ∧ dflt.normSq = 0 then some M2.one else
+  if p.normSq = 0 ∨ dflt.normSq = 0 then none else
+  if tsSnaps2 sqrt atol dflt p then some M2.one else rotFromToCode2 sqrt tol2 dflt p
+
+/-- `transform_system` in 3-d: the matrix applied to `other_vecs`. -/
+def tsMatrix3 [Div K] [LT K] [DecidableLT K] [DecidableEq K] (sqrt : K → K)
+    (tol2 atol cpi spi : K) (dflt p : V3 K) : Option (M3 K) :=
+  if p.normSq = 0 ∧ dflt.normSq = 0 then some M3.one else
+  if p.normSq = 0 ∨ dflt.normSq = 0 then none else
+  if tsSnaps3 sqrt atol dflt p then some M3.one else rotFromToCode3 sqrt tol2 cpi spi dflt p
+
+/-! ### the code before the repair b998548 (kept to document what the theorems are sensitive
+to; not used by the driver): the RAW given vector was compared with
+`‖p‖/‖dflt‖ · dflt` by `np.allclose` (`atol = 1e-8`, `rtol = 1e-5`). -/
+
+def tsMatrix2Old [Div K] [LT K] [DecidableLT K] [DecidableEq K] (sqrt : K → K) (tol2 atol rtol : K)
     (dflt p : V2 K) : Option (M2 K) :=
   if p.normSq = 0 ∧ dflt.normSq = 0 then some M2.one else
   if p.normSq = 0 ∨ dflt.normSq = 0 then none else
   let dil := sqrt p.normSq / sqrt dflt.normSq
   if closeTo atol rtol p.x (dil * dflt.x) && closeTo atol rtol p.y (dil * dflt.y) then some M2.one
   else rotFromToCode2 sqrt tol2 dflt p
-
-/-- `transform_system` in 3-d: the matrix applied to `other_vecs`. -/
-def tsMatrix3 [Div K] [LT K] [DecidableLT K] [DecidableEq K] (sqrt : K → K)
-    (tol2 atol rtol cpi spi : K) (dflt p : V3 K) : Option (M3 K) :=
-  if p.normSq = 0 ∧ dflt.normSq = 0 then some M3.one else
-  if p.normSq = 0 ∨ dflt.normSq = 0 then none else
-  let dil := sqrt p.normSq / sqrt dflt.normSq
-  if closeTo atol rtol p.x (dil * dflt.x) && closeTo atol rtol p.y (dil * dflt.y)
-      && closeTo atol rtol p.z (dil * dflt.z) then some M3.one
-  else rotFromToCode3 sqrt tol2 cpi spi dflt p
 
 end ops
 
